@@ -92,6 +92,7 @@ __SPECIAL_TOKENS = " ()'"
 def __next_token__(text: str) -> Tuple[str, int, int]:
     if text.startswith("(") or text.startswith("["):
         i = __matching__(text)
+        assert i >= 0, f"unbalanced parenthesis or bracket in: {text}"
         return text[1:i], _TOK_BRACKETS if text[0] == "[" else _TOK_PARENTHESIS, i + 1
     elif text.startswith("|"):
         return "", _TOK_OR, 1
